@@ -52,6 +52,19 @@ func HandleSearch(deps ServerDeps, conn net.Conn, tag string, parts []string, st
 		return
 	}
 
+	var args []string
+	if len(parts) > 2 {
+		args = parts[2:]
+	}
+	SearchSelectedMailbox(deps, conn, tag, "SEARCH", args, false, state)
+}
+
+// SearchSelectedMailbox implements SEARCH and UID SEARCH on the selected
+// mailbox (RFC 3501 sections 6.4.4 and 6.4.8): both evaluate the same search
+// program on the same listing; SEARCH reports message sequence numbers, UID
+// SEARCH (byUID) reports unique identifiers. name is the command name used in
+// the responses, args are the words that follow it.
+func SearchSelectedMailbox(deps ServerDeps, conn net.Conn, tag string, name string, args []string, byUID bool, state *models.ClientState) {
 	// Get appropriate database (user or role mailbox)
 	targetDB, targetUserID, err := deps.GetSelectedDB(state)
 	if err != nil {
@@ -60,17 +73,17 @@ func HandleSearch(deps ServerDeps, conn net.Conn, tag string, parts []string, st
 	}
 
 	// Parse search criteria
-	if len(parts) < 3 {
-		deps.SendResponse(conn, fmt.Sprintf("%s BAD SEARCH requires search criteria", tag))
+	if len(args) < 1 {
+		deps.SendResponse(conn, fmt.Sprintf("%s BAD %s requires search criteria", tag, name))
 		return
 	}
 
 	// Check for CHARSET specification
-	searchStart := 2
+	searchStart := 0
 	charset := "US-ASCII"
-	if len(parts) > 3 && strings.ToUpper(parts[2]) == "CHARSET" {
-		charset = strings.ToUpper(parts[3])
-		searchStart = 4
+	if len(args) > 1 && strings.ToUpper(args[0]) == "CHARSET" {
+		charset = strings.ToUpper(args[1])
+		searchStart = 2
 
 		// RFC 3501: US-ASCII MUST be supported, other charsets MAY be supported
 		if charset != "US-ASCII" && charset != "UTF-8" {
@@ -80,8 +93,8 @@ func HandleSearch(deps ServerDeps, conn net.Conn, tag string, parts []string, st
 		}
 	}
 
-	if searchStart >= len(parts) {
-		deps.SendResponse(conn, fmt.Sprintf("%s BAD SEARCH requires search criteria", tag))
+	if searchStart >= len(args) {
+		deps.SendResponse(conn, fmt.Sprintf("%s BAD %s requires search criteria", tag, name))
 		return
 	}
 
@@ -95,7 +108,7 @@ func HandleSearch(deps ServerDeps, conn net.Conn, tag string, parts []string, st
 	`
 	rows, err := targetDB.Query(query, state.SelectedMailboxID)
 	if err != nil {
-		deps.SendResponse(conn, fmt.Sprintf("%s NO Search failed: %v", tag, err))
+		deps.SendResponse(conn, fmt.Sprintf("%s NO %s failed: %v", tag, name, err))
 		return
 	}
 	defer func() { _ = rows.Close() }()
@@ -128,25 +141,30 @@ func HandleSearch(deps ServerDeps, conn net.Conn, tag string, parts []string, st
 	}
 
 	// Parse and evaluate search criteria
-	criteria := strings.Join(parts[searchStart:], " ")
-	matchingSeqNums := evaluateSearchCriteria(messages, criteria, charset, targetUserID, deps)
+	criteria := strings.Join(args[searchStart:], " ")
+	matching := evaluateSearchCriteria(messages, criteria, charset, targetUserID, deps)
 
-	// Build response
-	if len(matchingSeqNums) > 0 {
+	// Build response: sequence numbers for SEARCH, UIDs for UID SEARCH
+	if len(matching) > 0 {
 		var results []string
-		for _, seq := range matchingSeqNums {
-			results = append(results, strconv.Itoa(seq))
+		for _, msg := range matching {
+			if byUID {
+				results = append(results, strconv.FormatInt(msg.uid, 10))
+			} else {
+				results = append(results, strconv.Itoa(msg.seqNum))
+			}
 		}
 		deps.SendResponse(conn, fmt.Sprintf("* SEARCH %s", strings.Join(results, " ")))
 	} else {
 		deps.SendResponse(conn, "* SEARCH")
 	}
-	deps.SendResponse(conn, fmt.Sprintf("%s OK SEARCH completed", tag))
+	deps.SendResponse(conn, fmt.Sprintf("%s OK %s completed", tag, name))
 }
 
-// evaluateSearchCriteria evaluates search criteria against messages
-func evaluateSearchCriteria(messages []messageInfo, criteria string, charset string, userID int64, deps ServerDeps) []int {
-	var matchingSeqNums []int
+// evaluateSearchCriteria evaluates search criteria against messages and
+// returns the matching ones, in listing order
+func evaluateSearchCriteria(messages []messageInfo, criteria string, charset string, userID int64, deps ServerDeps) []messageInfo {
+	var matching []messageInfo
 
 	// Default to ALL if no criteria specified
 	if strings.TrimSpace(criteria) == "" {
@@ -159,11 +177,11 @@ func evaluateSearchCriteria(messages []messageInfo, criteria string, charset str
 	// Evaluate each message
 	for _, msg := range messages {
 		if matchesSearchCriteria(msg, tokens, charset, userID, deps) {
-			matchingSeqNums = append(matchingSeqNums, msg.seqNum)
+			matching = append(matching, msg)
 		}
 	}
 
-	return matchingSeqNums
+	return matching
 }
 
 // parseSearchTokens tokenizes search criteria
